@@ -221,6 +221,15 @@ func (d *tmDriver) behave(self *mtimer) {
 			beh{"cancel+rearm10s " + t.name, func() { d.cancel(t); d.schedule(t, tLong, false) }},
 			beh{"cancel+rearm-1ms " + t.name, func() { d.cancel(t); d.schedule(t, tMed, false) }},
 		)
+		if t == self && len(d.timers) < 3 {
+			// the closed timer's descriptor number is reused at once by a new timer, created in the same callback
+			list = append(list, beh{"close " + t.name + " + new-timer + schedule it", func() {
+				d.closeT(t)
+				m := d.newTimer()
+				d.x.Note("new %s at fd %d", m.name, m.fd)
+				d.schedule(m, tLong, false)
+			}})
+		}
 		if t == self && self.repeating && self.state == 1 {
 			// a new schedule started from inside the repeating timer's own callback is not constrained by
 			// the property (the implementation is between two repetitions there) — but whatever it did, a
